@@ -1,6 +1,6 @@
 (* C19/Properties.v — the property theorems, nothing else.  Each is closed by [exact lemma]
    and followed by Print Assumptions (captured into the evidence by the check driver). *)
-From Verif Require Import Common.Base C19.Model C19.Proofs1 C19.Proofs2 C19.Proofs3 C19.Proofs4 C19.Proofs5 C19.Proofs6 C19.Proofs7 C19.Proofs8 C19.Proofs9 C19.Proofs10 C19.Proofs11 C19.Proofs12 C19.Translated C19.Checker C19.Proofs13.
+From Verif Require Import Common.Base C19.Model C19.Proofs1 C19.Proofs2 C19.Proofs3 C19.Proofs4 C19.Proofs5 C19.Proofs6 C19.Proofs7 C19.Proofs8 C19.Proofs9 C19.Proofs10 C19.Proofs11 C19.Proofs12 C19.Translated C19.Checker C19.Proofs13 C19.Proofs14.
 From Verif Require Generated.C19ExpHelper.
 Local Open Scope Z_scope.
 
@@ -330,6 +330,20 @@ Theorem model_exporter_only_own_counters : forall o outs ops c,
   lget c (s_led (run_exporter o outs ops)) = 0.
 Proof. exact run_only_own. Qed.
 
+(* ... the gauge-range clause: EVERY reading of the size gauge, in every history of non-negative item counts under
+   every configuration with a non-negative capacity, lies within [0, configured capacity] (no bound above when the
+   queue has none: batcher-only) - first as a statement about the model, then in the checker's own form *)
+Theorem exporter_gauges_in_range : forall o outs ops,
+  o_sig o <> Profiles -> le_cap o 0 -> Forall eop_nonneg ops ->
+  Forall (fun g => 0 <= g /\ le_cap o g) (s_gauges (run_exporter o outs ops)).
+Proof. exact (fun o outs ops Hs Hc F => gauges_in_range_l o Hs Hc outs ops F). Qed.
+
+Theorem model_exporter_gauge_range_clause : forall cfg outs ops,
+  sig_of_Z (nth 0 cfg 0) <> Profiles -> Forall eop_nonneg (map eop_of ops) ->
+  (zb (nth 1 cfg 0) = true -> 0 <= nth 4 cfg 0) ->
+  Forall (fun g => 0 <= g /\ (zb (nth 1 cfg 0) = true -> g <= nth 4 cfg 0)) (s_gauges (exp_run cfg outs ops)).
+Proof. exact model_exp_gauges_l. Qed.
+
 (* ---- translator obligations: hand-written pieces = what T1 generates from the current source ------ *)
 
 Theorem to_num_items_is_translated : forall n err,
@@ -384,7 +398,7 @@ Proof. exact persistent_size_undercounts_l. Qed.
 (* ... but it never OVER-counts: for every history of non-negative item counts, at every operation
    boundary and at every burst reading, 0 <= size field <= summed size of accepted-not-done requests *)
 Theorem gauges_persistent_never_overcounts : forall o outs ops ns,
-  o_sig o <> Profiles -> Forall eop_nonneg ops -> Forall (fun n => 0 <= n) ns -> is_storage o = true ->
+  o_sig o <> Profiles -> le_cap o 0 -> Forall eop_nonneg ops -> Forall (fun n => 0 <= n) ns -> is_storage o = true ->
   let st := fold_left (step o) ops (init_est outs) in
   let st1 := fold_left (fun s n => let s' := offer o s n in pump_closed o (S (length (s_queue s'))) s') ns st in
   0 <= s_qsize st <= outstanding_size o st /\ 0 <= s_qsize st1 <= outstanding_size o st1.
@@ -444,6 +458,8 @@ Print Assumptions model_passes_checker.
 Print Assumptions model_scraper_logs_fails_checker.
 Print Assumptions model_exporter_capacity_clause.
 Print Assumptions model_exporter_only_own_counters.
+Print Assumptions exporter_gauges_in_range.
+Print Assumptions model_exporter_gauge_range_clause.
 Print Assumptions to_num_items_is_translated.
 Print Assumptions obs_end_op_is_translated.
 Print Assumptions batch_validate_is_translated.
